@@ -957,7 +957,7 @@ func RCatsToo(c *core.Ctx) {
 			// delegation to a method that does
 			ast.Inspect(fd.Body, func(x ast.Node) bool {
 				if call, ok := x.(*ast.CallExpr); ok {
-					if cal := core.Callee(info, call); cal != nil && (cal.Name() == "charInCategories" || cal.Name() == "IsSingleton" || cal.Name() == "IsSingletonInverse") {
+					if cal := core.Callee(info, call); cal != nil && (core.BaseName(cal) == "charInCategories" || core.BaseName(cal) == "IsSingleton" || core.BaseName(cal) == "IsSingletonInverse") {
 						consults = true
 					}
 				}
